@@ -174,6 +174,9 @@ func (h *payloadHook) Before(c *vos.Call) {
 	h.mu.Lock()
 	defer h.mu.Unlock()
 	base := filepath.Base(c.Path)
+	if i := strings.Index(base, ".tmp"); i >= 0 {
+		base = base[:i+4] // temporary names carry random digits
+	}
 	isDB := strings.HasPrefix(base, "db")
 	switch c.Op {
 	case "write", "writeat":
@@ -334,6 +337,7 @@ func TestCheck(t *testing.T) {
 		fcSec.Samples = append(fcSec.Samples, fmt.Sprintf("doc %d (%d bytes): mode %o", i, len(doc), fi.Mode().Perm()))
 	}
 
+	restored(t, rep, base, sc)
 	tamper(t, env, rep, base)
 	if err := rep.Write(env); err != nil {
 		t.Fatal(err)
@@ -449,4 +453,49 @@ func tamper(t *testing.T, env *report.Env, rep *report.Report, base string) {
 			sec.Samples = append(sec.Samples, map[string]any{"file_bytes": len(data), "original": report.Clip(orig, 200)})
 		}
 	}
+}
+
+// restored: a database file put in place from outside with a wider mode (for
+// example restored from a backup with cp) and then opened and changed: every
+// file the server creates from then on must still be owner-only.
+func restored(t *testing.T, rep *report.Report, base string, sc *scanner) {
+	sec := rep.Add(&report.Section{Name: "restored-file-with-wider-mode", Engine: "enum", Exhaustive: true, Extra: map[string]int64{},
+		Rule: "a valid database file (and audit log) placed with modes 0644 / 0664 / 0640 / 0666 before the server opens it, then every kind of mutating operation: create/chmod modes in the call log and the mode bits of the database file after each operation; non-trivial = operations that rewrite the file"})
+	kek := hx.NewKEK()
+	for _, mode := range []os.FileMode{0o644, 0o664, 0o640, 0o666} {
+		dir := filepath.Join(base, fmt.Sprintf("restored-%o", mode))
+		os.MkdirAll(dir, 0o700)
+		p := filepath.Join(dir, "db")
+		d0, err := db.Open(p, kek, hx.Discard())
+		if err != nil {
+			t.Fatal(err)
+		}
+		apply(d0, Op{Kind: "put", Name: 0, Val: 0})
+		apply(d0, Op{Kind: "put", Name: 0, Val: 1})
+		os.Chmod(p, mode)
+		ph := &payloadHook{dir: dir, sc: sc, files: map[string]bool{}}
+		vos.SetHook(ph)
+		d, err := db.Open(p, kek, hx.Discard())
+		if err != nil {
+			vos.SetHook(nil)
+			t.Fatal(err)
+		}
+		for _, o := range []Op{{Kind: "put", Name: 1, Val: 2}, {Kind: "activate", Name: 0, Ver: 2}, {Kind: "delver", Name: 0, Ver: 1}, {Kind: "delete", Name: 1}} {
+			if err := apply(d, o); err != nil {
+				continue
+			}
+			sec.Evaluations++
+			sec.Nontrivial++
+			fi, err := os.Stat(p)
+			if err != nil || fi.Mode().Perm()&0o077 != 0 {
+				rep.Violate(sec.Name, fmt.Sprintf("restored/file-mode: placed %o op %s", mode, o.Kind), fmt.Sprintf("database file placed with mode %o; after %s the file the server wrote has mode %v", mode, o.Kind, fi.Mode().Perm()), nil)
+			}
+		}
+		vos.SetHook(nil)
+		for _, l := range ph.modes {
+			rep.Violate(sec.Name, fmt.Sprintf("restored/create-mode: placed %o: %s", mode, l), fmt.Sprintf("database file placed with mode %o: %s", mode, l), nil)
+		}
+		sec.Samples = append(sec.Samples, fmt.Sprintf("placed with %o -> rewritten files owner-only", mode))
+	}
+	sec.States, sec.Transitions = sec.Evaluations, sec.Evaluations
 }
